@@ -362,6 +362,16 @@ Definition C13_skip_full : Prop :=
       no_collision H (out_preimage (sys_outs rs)) (out_preimage (sys_outs now)) ->
       sys_equiv rs now /\ sys_out_equiv rs now.
 
+(* D2 (open) at the level of the skip decision: with SHA-256 replaced by the identity (no collision
+   at all), one step with the outputs a and b -- recorded: a missing, b present; now: a present, b
+   missing, contents chosen so that both output pre-images are the same bytes -- is skipped.
+   skip_counterexample spells out every premise of C13_skip_full and ~ Permutation of the outputs. *)
+Theorem C13_skip_full_refuted : unknown_as_none = false -> skip_counterexample.
+Proof. exact skip_full_refuted. Qed.
+
+Theorem C13_skip_full_is_false : unknown_as_none = false -> ~ C13_skip_full.
+Proof. exact skip_full_is_false. Qed.
+
 (* Proved: the same with the residue of D2 for the OUTPUT digest (no content digest of an output,
    recorded or current, starts with the bytes 75 00 01).  The INPUT part needs no extra hypothesis:
    label (command, working directory), shell flag, every input's (digest, mode, size), the set of
